@@ -91,6 +91,11 @@ pub fn generate(g: &mut Gen, thorough: bool) {
             let d = proj::random(&mut g.rng, "merc");
             let mut pts = proj::points(&mut g.rng, &d, 6);
             pts.push([f64::NAN, -0.0, f64::INFINITY, 5e-324]);
+            // longitudes in the 0..360 convention, several turns away, projected and cartesian coordinates
+            pts.push([4.0, 0.5, 10.0, 2000.0]);
+            pts.push([-7.0, -1.0, 0.0, 0.0]);
+            pts.push([500000.0, 6.0e6, 100.0, 2020.0]);
+            pts.push([-3.5e6, 2.1e6, 4.9e6, 0.0]);
             pair(g, "noop", &format!("{alias}{tail}"), "noop", &[], &pts, "oracle-noop-aliases");
         }
     }
